@@ -42,6 +42,12 @@ def matching_family(tier, seed, events=(), need_sell=True, two_sec=True):
             for l in sk.with_events(base3, events, SHORT, ratios=("2",), max_events=2):
                 if sum(1 for x in l if x[0] in events) == 2:
                     items.append((l, BASES[0]))
+    if events and two_sec:
+        # a corporate action of ANOTHER security (which has no trades of its own) next to this security's trades
+        fev = tuple(e for e in events if e in ("X", "U", "C", "M"))
+        basef = list(sk.bs_family(2, 3 if tier == "quick" else 4, SHORT, need_sell=need_sell))
+        for l in sk.with_events(basef, fev[:2], [1, 30] if tier == "quick" else SHORT, ratios=("2",), max_events=1, tickers=("B",)):
+            items.append((l, BASES[0]))
     if two_sec:
         n2 = 4 if tier == "quick" else 5
         for l in sk.bs_family(2, n2, [0, 1, 30] if tier == "quick" else SHORT, tickers=("A", "B"), need_sell=need_sell):
@@ -196,6 +202,10 @@ def fam_c09(tier, seed):
     n = 4 if tier == "quick" else 5
     days = [0, 1, 30] if tier == "quick" else SHORT
     items = [(l, BASES[0]) for l in sk.bs_family(2, n, days, tickers=("A", "B"), need_sell=True)]
+    # a split / capital event of B next to a 30-day match of A (B has no trades of its own)
+    a3 = list(sk.bs_family(3, 3, SHORT, need_sell=True))
+    for l in sk.with_events(a3, ("X", "C"), [1, 30], ratios=("2",), max_events=1, tickers=("B",)):
+        items.append((l, BASES[0]))
     # capital events and splits in both securities
     b3 = list(sk.bs_family(2, 3, [0, 30], tickers=("A", "B"), need_sell=True))
     for l in sk.with_events(b3, ("X", "C", "M"), [0, 1, 30], ratios=("2",), max_events=1, tickers=("A", "B")):
@@ -225,6 +235,9 @@ def fam_c10(tier, seed):
             if sum(1 for x in l if x[0] in "XU") == 2:
                 items.append((l, BASES[0]))
     # two securities: a split of one never touches the other
+    a3 = list(sk.bs_family(3, 3, SHORT, need_sell=True))
+    for l in sk.with_events(a3, ("X", "U"), [1, 30], ratios=("2",), max_events=1, tickers=("B",)):
+        items.append((l, BASES[0]))
     b2s = list(sk.bs_family(2, 3, [0, 30], tickers=("A", "B"), need_sell=True))
     for l in sk.with_events(b2s, ("X",), [0, 1, 30], ratios=("2",), max_events=1, tickers=("B",)):
         items.append((l, BASES[0]))
